@@ -4,10 +4,12 @@ package main
 
 import (
 	"context"
+	"database/sql"
 	"encoding/json"
 	"fmt"
 	"os"
 	"path/filepath"
+	"strconv"
 	"time"
 
 	"ebuverif/internal/h"
@@ -22,10 +24,49 @@ import (
 // call promises nothing (the old or the new value are both accepted for it).
 
 type retryCase struct {
-	Ops []string `json:"ops"` // A append, Ac append with cancelled ctx, S<n> save offset n for "sub", Sc<n> the same with a cancelled ctx, R close+reopen
+	// A append, Ac append with a cancelled context, Ad append with an expired deadline,
+	// S<n> save offset n for "sub", Sc<n> / Sd<n> the same with a cancelled / expired context,
+	// R close+reopen, L another connection to the same file starts a write transaction and
+	// keeps it open (calls made meanwhile cannot write), U it rolls back
+	Ops []string `json:"ops"`
+	// Opts: the store is opened with a metrics hook (bit 0) and a logger (bit 1)
+	Opts int `json:"store_options,omitempty"`
 }
 
-func (r retryCase) String() string { return fmt.Sprintf("retry%v", r.Ops) }
+func (r retryCase) String() string {
+	o := []string{"", " +metrics-hook", " +logger", " +metrics-hook+logger"}[r.Opts&3]
+	return fmt.Sprintf("retry%v%s", r.Ops, o)
+}
+
+type nopHook struct{ calls, errs int }
+
+func (n *nopHook) OnAppend(d time.Duration, err error)          { n.note(err) }
+func (n *nopHook) OnRead(d time.Duration, count int, err error) { n.note(err) }
+func (n *nopHook) OnSaveOffset(d time.Duration, err error)      { n.note(err) }
+func (n *nopHook) OnLoadOffset(d time.Duration, err error)      { n.note(err) }
+func (n *nopHook) note(err error) {
+	n.calls++
+	if err != nil {
+		n.errs++
+	}
+}
+
+type nopLogger struct{}
+
+func (nopLogger) Debug(string, ...any) {}
+func (nopLogger) Info(string, ...any)  {}
+func (nopLogger) Error(string, ...any) {}
+
+func (rc retryCase) open(path string) (*sqlite.SQLiteStore, error) {
+	opts := []sqlite.Option{sqlite.WithBusyTimeout(time.Millisecond)}
+	if rc.Opts&1 != 0 {
+		opts = append(opts, sqlite.WithMetricsHook(&nopHook{}))
+	}
+	if rc.Opts&2 != 0 {
+		opts = append(opts, sqlite.WithLogger(nopLogger{}))
+	}
+	return sqlite.New(path, opts...)
+}
 
 func runRetryCase(rc retryCase) (out []string) {
 	bad := func(f string, a ...any) { out = append(out, fmt.Sprintf(f, a...)) }
@@ -35,7 +76,7 @@ func runRetryCase(rc retryCase) (out []string) {
 	}
 	defer os.RemoveAll(dir)
 	path := filepath.Join(dir, "x.db")
-	st, err := sqlite.New(path)
+	st, err := rc.open(path)
 	if err != nil {
 		return []string{"open: " + err.Error()}
 	}
@@ -43,6 +84,39 @@ func runRetryCase(rc retryCase) (out []string) {
 	bg := context.Background()
 	cctx, cancel := context.WithCancel(bg)
 	cancel()
+	dctx, dcancel := context.WithDeadline(bg, time.Unix(1, 0))
+	defer dcancel()
+	ctxOf := func(mark byte) context.Context {
+		switch mark {
+		case 'c':
+			return cctx
+		case 'd':
+			return dctx
+		}
+		return bg
+	}
+	// the other writer on the same file
+	var other *sql.DB
+	var lockConn *sql.Conn
+	unlock := func() {
+		if lockConn != nil {
+			lockConn.ExecContext(bg, "ROLLBACK")
+			lockConn.Close()
+			lockConn = nil
+		}
+	}
+	defer func() {
+		unlock()
+		if other != nil {
+			other.Close()
+		}
+	}()
+	type ack struct {
+		id  int
+		off eventbus.Offset
+	}
+	var ackedEvs []ack
+	lastPos := int64(0)
 	acked := 0                          // acknowledged appends
 	var savedAck eventbus.Offset        // last acknowledged saved offset
 	maybe := map[eventbus.Offset]bool{} // offsets of failed saves since the last acknowledged one
@@ -56,6 +130,23 @@ func runRetryCase(rc retryCase) (out []string) {
 		if len(evs) < acked {
 			bad("%s: %d appends were acknowledged, the log holds %d events", when, acked, len(evs))
 		}
+		// every acknowledged event is in the log under the offset it was acknowledged with
+		for _, a := range ackedEvs {
+			found := false
+			for _, e := range evs {
+				var d struct{ I int }
+				json.Unmarshal(e.Data, &d)
+				if d.I == a.id {
+					found = true
+					if e.Offset != a.off {
+						bad("%s: an append was acknowledged with offset %q, the log holds that event under %q", when, a.off, e.Offset)
+					}
+				}
+			}
+			if !found {
+				bad("%s: an append was acknowledged (offset %q) but its event is not in the log", when, a.off)
+			}
+		}
 		got, err := st.LoadOffset(bg, "sub")
 		if err != nil {
 			bad("%s: LoadOffset failed: %v", when, err)
@@ -67,21 +158,39 @@ func runRetryCase(rc retryCase) (out []string) {
 	}
 	for i, op := range rc.Ops {
 		switch {
-		case op == "A" || op == "Ac":
-			ctx := bg
-			if op == "Ac" {
-				ctx = cctx
+		case op == "L":
+			if other == nil {
+				if other, err = sql.Open("sqlite", "file:"+path); err != nil {
+					return []string{"second handle: " + err.Error()}
+				}
 			}
-			o, err := st.Append(ctx, &eventbus.Event{Type: "t", Data: json.RawMessage(fmt.Sprintf(`{"i":%d}`, i)), Timestamp: time.Unix(int64(i), 0)})
+			if lockConn, err = other.Conn(bg); err != nil {
+				return []string{"second connection: " + err.Error()}
+			}
+			if _, err := lockConn.ExecContext(bg, "BEGIN IMMEDIATE"); err != nil {
+				return []string{"the other writer could not start its transaction: " + err.Error()}
+			}
+		case op == "U":
+			unlock()
+		case op[0] == 'A':
+			ctx := ctxOf((op + " ")[1])
+			o, err := st.Append(ctx, &eventbus.Event{Type: "t", Data: json.RawMessage(fmt.Sprintf(`{"i":%d}`, i+1)), Timestamp: time.Unix(int64(i), 0)})
 			if err == nil {
 				acked++
 				offs = append(offs, o)
+				ackedEvs = append(ackedEvs, ack{i + 1, o})
+				pos, perr := strconv.ParseInt(string(o), 10, 64)
+				if perr != nil || pos <= lastPos {
+					bad("after op %d (%s): an append was acknowledged with offset %q, which is not larger than the offsets acknowledged before it", i+1, op, o)
+				} else {
+					lastPos = pos
+				}
 			}
 		case op[0] == 'S':
 			ctx := bg
 			rest := op[1:]
-			if rest[0] == 'c' {
-				ctx, rest = cctx, rest[1:]
+			if rest[0] == 'c' || rest[0] == 'd' {
+				ctx, rest = ctxOf(rest[0]), rest[1:]
 			}
 			var n int
 			fmt.Sscan(rest, &n)
@@ -94,17 +203,20 @@ func runRetryCase(rc retryCase) (out []string) {
 			}
 		case op == "R":
 			st.Close()
-			st, err = sqlite.New(path)
+			st, err = rc.open(path)
 			if err != nil {
 				bad("reopen failed: %v", err)
 				return
 			}
 		}
-		check(fmt.Sprintf("after op %d (%s)", i+1, op))
+		if lockConn == nil {
+			check(fmt.Sprintf("after op %d (%s)", i+1, op))
+		}
 	}
+	unlock()
 	for k := 0; k < 2; k++ {
 		st.Close()
-		st, err = sqlite.New(path)
+		st, err = rc.open(path)
 		if err != nil {
 			bad("reopen failed: %v", err)
 			return
@@ -115,21 +227,31 @@ func runRetryCase(rc retryCase) (out []string) {
 }
 
 func retryCases() []retryCase {
-	alpha := []string{"A", "Ac", "S1", "Sc1", "S2", "Sc2", "R"}
+	alpha := []string{"A", "Ac", "S1", "Sc1", "S2", "Sc2", "R", "Ad", "Sd2", "L", "U"}
 	var l []retryCase
-	var rec func(cur []string)
-	rec = func(cur []string) {
-		if len(cur) > 0 {
-			l = append(l, retryCase{Ops: append([]string{}, cur...)})
+	for _, opts := range []int{0, 3, 1} {
+		maxLen := 4
+		if opts != 0 {
+			maxLen = 3
 		}
-		if len(cur) == 4 {
-			return
+		var rec func(cur []string, locked bool)
+		rec = func(cur []string, locked bool) {
+			if len(cur) > 0 {
+				l = append(l, retryCase{Ops: append([]string{}, cur...), Opts: opts})
+			}
+			if len(cur) == maxLen {
+				return
+			}
+			for _, a := range alpha {
+				switch {
+				case a == "L" && locked, a == "U" && !locked, a == "R" && locked:
+					continue // one other writer; a reopen would wait for it (migration)
+				}
+				rec(append(cur, a), (locked || a == "L") && a != "U")
+			}
 		}
-		for _, a := range alpha {
-			rec(append(cur, a))
-		}
+		rec([]string{}, false)
 	}
-	rec([]string{})
 	return l
 }
 
@@ -140,7 +262,7 @@ func runRetries(c *h.Check) {
 		}
 		hasFail := false
 		for _, o := range rc.Ops {
-			hasFail = hasFail || o == "Ac" || (len(o) > 1 && o[1] == 'c')
+			hasFail = hasFail || o == "L" || (len(o) > 1 && (o[1] == 'c' || o[1] == 'd'))
 		}
 		if !hasFail {
 			continue // histories without a failing call are the crash enumeration's subject
